@@ -2,9 +2,9 @@
 EXTENDS Targets, Json
 R(p, t, po, hint, e, al, nd) == [prio |-> p, target |-> t, port |-> po, v4hint |-> IF hint THEN <<"v4h">> ELSE <<>>,
                                  v6hint |-> IF hint THEN <<"v6h">> ELSE <<>>, ech |-> e, alpn |-> al, nodefault |-> nd]
-Full1 == { R(p, t, po, hint, e, al, nd) : p \in {0, 1}, t \in {"", "t"}, po \in {0, 8443}, hint \in BOOLEAN, e \in {"nil", "E1"},
+Full1 == { R(p, t, po, hint, e, al, nd) : p \in {0, 1}, t \in {"", "t"}, po \in {0, 80, 8443}, hint \in BOOLEAN, e \in {"nil", "E1"},
                                            al \in {<<>>, <<"h3", "h2">>}, nd \in BOOLEAN }
-Small == { R(p, t, po, hint, e, <<"h2">>, FALSE) : p \in {0, 1, 2}, t \in {"", "t"}, po \in {0, 8443}, hint \in BOOLEAN, e \in {"nil", "E2"} }
+Small == { R(p, t, po, hint, e, <<"h2">>, FALSE) : p \in {0, 1, 2}, t \in {"", "t"}, po \in {0, 80, 8443}, hint \in BOOLEAN, e \in {"nil", "E2"} }
 Recs0 == { <<>> }
 Recs1 == { <<r>> : r \in Full1 }
 Recs2 == { <<a, b>> : a \in Small, b \in Small }
